@@ -389,16 +389,29 @@ def u_average_reward(ctx):
             tabs = random_tables(ctx.rng, nS, nA, p_term=0.25, n_starts=1)
             table = ctx.rng.integers(0, nA, nS)
             tl = [None, 2, 3, 6][int(ctx.rng.integers(0, 4))]
+            if (c // 2) % 2 == 0 and tl is None:
+                tl = 3  # these cases take the uncapped path below: the episode must end on its own
         env = FiniteMDP(tabs["P"], tabs["R"], tabs["term"], tabs["starts"])
         ref = RefMDP(tabs["P"], tabs["R"], tabs["term"], tabs["starts"], time_limit=tl)
         if tl:
             env = TimeLimit(env, tl)
         pol = TableACPolicy(env, table)
+        det = bool(c % 3 == 0)
+        played = table
+        if not multi and c % 2 == 0:
+            # a policy whose key-less action differs from its keyed one: the helper must play the requested mode
+            from vlib.stubs import KeyAwareTablePolicy
+
+            keyed = (table + 1 + ctx.rng.integers(0, nA - 1, nS)) % nA
+            pol = KeyAwareTablePolicy(env, table, keyed)
+            played = table if det else keyed
+            ctx.monitor("evaluations_of_a_mode_sensitive_policy")
+            ctx.monitor(f"evaluations_of_a_mode_sensitive_policy/{'deterministic' if det else 'sampling'}")
 
         def ref_return(s0, cap):
             s, t, tot = s0, 0, 0.0
             while cap is None or t < cap:
-                ns, r, term, trunc = ref.step(s, t, int(table[s]))
+                ns, r, term, trunc = ref.step(s, t, int(played[s]))
                 tot += r
                 s, t = ns, t + 1
                 if term or trunc:
@@ -408,7 +421,8 @@ def u_average_reward(ctx):
             return tot, False
 
         cap = [None, 1, 2, 4, 16][int(ctx.rng.integers(0, 5))]
-        det = bool(c % 3 == 0)
+        if type(pol).__name__ == "KeyAwareTablePolicy" and (c // 2) % 2 == 0:
+            cap = None  # the uncapped (while-loop) path of the helper
         rets = {int(s): ref_return(int(s), cap) for s in tabs["starts"]}
         if cap is None and any(v[0] is None for v in rets.values()):
             cap = 16  # episode never ends: only the capped helper is defined
@@ -418,6 +432,8 @@ def u_average_reward(ctx):
         ctx.case({**info, "nS": int(env.unwrapped.nS)}, nontrivial=multi or any(v[1] for v in rets.values()),
                  cls=f"average_reward/{'multi' if multi else 'single'}/{'while' if cap is None else 'scan'}")
         ctx.monitor("average_reward_calls")
+        if type(pol).__name__ == "KeyAwareTablePolicy":
+            ctx.monitor(f"mode_sensitive/{'while' if cap is None else 'scan'}/{'deterministic' if det else 'sampling'}")
         if not multi:
             want = rets[int(tabs["starts"][0])][0]
             if abs(got - want) > 1e-5 * max(1, abs(want)) + 1e-6:
@@ -425,6 +441,13 @@ def u_average_reward(ctx):
                 s0 = int(tabs["starts"][0])
                 full = ref_return(s0, None if cap is None else 10 * (cap or 1))[0]
                 key = "average-reward-not-episode-return"
+                if type(pol).__name__ == "KeyAwareTablePolicy":
+                    other, played_saved = (pol.keyed if det else pol.table), played
+                    played = np.asarray(other)
+                    alt = ref_return(s0, cap)[0]
+                    played = played_saved
+                    if alt is not None and abs(got - alt) < 1e-5 * max(1, abs(alt)):
+                        key = "average-reward-plays-the-other-mode-than-requested"
                 if full is not None and cap is not None and abs(got - full) < 1e-5 * max(1, abs(full)):
                     key = "average-reward-ignores-step-cap"
                 ctx.violation(key, {**info, "got": got, "want": want})
@@ -447,6 +470,8 @@ def u_average_reward(ctx):
     if seen_starts_runs == 0:
         ctx.violation("evaluation-episodes-not-independent", {"note": "no run with >= 3 episodes ever used two different start states"})
     ctx.require("multiset_decoded", 5)
+    for k in ("while/deterministic", "while/sampling", "scan/deterministic", "scan/sampling"):
+        ctx.require("mode_sensitive/" + k, 1)
 
 
 def u_average_reward_stateful(ctx):
